@@ -97,6 +97,75 @@ func c11(c *core.Ctx) {
 		rC.Check(limited, f.Key+":claim-limited", claim.Pos(), "claim guarded by counter < limit, iterating the ordered slice", "records are claimed without the count limit: a caller can receive more than it asked for")
 	}
 
+	rG := c.Rule("C11.claimguard", "a claim function that hands out clones reads the record for its selection decision (predicate call, expiry getter) and clones it inside one record-guard region: between StartTreasureGuard on the loop record and the release of that ID", 3)
+	for _, n := range claimFuncs {
+		f := c.Fn(pkgBeacon + ".beacon." + n)
+		info := f.Info()
+		ast.Inspect(f.Decl.Body, func(x ast.Node) bool {
+			rs, ok := x.(*ast.RangeStmt)
+			if !ok || core.FieldOf(info, rs.X) != byOrder || rs.Value == nil {
+				return true
+			}
+			rv := core.ObjOf(info, rs.Value)
+			var clones []*ast.CallExpr
+			core.Calls(rs.Body, false, func(call *ast.CallExpr) {
+				if fo := core.Callee(info, call); fo != nil && fo.Name() == "Clone" && core.ObjOf(info, core.RecvExpr(call)) == rv {
+					clones = append(clones, call)
+				}
+			})
+			if len(clones) == 0 {
+				return true
+			}
+			var region *guardRegion
+			nReg := 0
+			for _, r := range guardRegions(p, f) {
+				if core.ObjOf(info, core.RecvExpr(r.Acquire)) == rv && rs.Body.Pos() <= r.Acquire.Pos() && r.Acquire.End() <= rs.Body.End() {
+					region = r
+					nReg++
+				}
+			}
+			if nReg != 1 || region.ID == nil {
+				rG.Bad(f.Key+":guard-region", rs.Pos(), "the claim loop clones the record but does not acquire exactly one guard on it per iteration")
+				return true
+			}
+			inside := map[ast.Node]bool{}
+			region.walk(info, func(n ast.Node) { inside[n] = true })
+			fl := region.Fl
+			core.Calls(rs.Body, false, func(call *ast.CallExpr) {
+				fo := core.Callee(info, call)
+				uses := false
+				if r := core.RecvExpr(call); r != nil && core.ObjOf(info, r) == rv {
+					uses = true
+				}
+				for _, a := range call.Args {
+					if core.ObjOf(info, a) == rv {
+						uses = true
+					}
+				}
+				if !uses {
+					return
+				}
+				if id, isId := core.Unparen(call.Fun).(*ast.Ident); isId {
+					if _, isB := info.Uses[id].(*types.Builtin); isB {
+						return // append/delete of the element itself
+					}
+				}
+				name := core.ExprStr(call.Fun)
+				if fo != nil {
+					switch fo.Name() {
+					case "StartTreasureGuard", "ReleaseTreasureGuard", "GetKey":
+						return // the key is immutable
+					}
+					name = fo.Name()
+				}
+				l, ok := fl.Locate(call)
+				okIn := ok && inside[fl.Node(l)]
+				rG.Check(okIn, f.Key+":"+name+"("+rs.Value.(*ast.Ident).Name+")", call.Pos(), "inside the record's guard region", "the record is read for the claim decision (or cloned) outside its guard region: a writer that holds the guard can change it between the decision and the clone, and the caller receives a record that does not satisfy the selection criteria")
+			})
+			return true
+		})
+	}
+
 	rF := c.Rule("C11.fullfilter", "inside the predicates built for ShiftMatching and PatchExpired every evaluateNativeFilterGroup call receives the caller's filters parameter (not the planner's residual)", 3)
 	for _, k := range []string{pkgGateway + ".buildShiftMatchingPredicate", pkgGateway + ".buildPatchExpiredSelectionPredicate"} {
 		f := c.Fn(k)
